@@ -11,6 +11,8 @@ import (
 	"net/http"
 	"os"
 	"runtime/debug"
+
+	"golang.org/x/net/http/httpguts"
 	"strings"
 	"sync"
 	"sync/atomic"
@@ -144,6 +146,14 @@ func (w *recWriter) writeHeaderLocked(code int) {
 			}
 		}
 	}
+	for k, vs := range w.sent {
+		for _, v := range vs {
+			if !httpguts.ValidHeaderFieldName(k) || !httpguts.ValidHeaderFieldValue(v) {
+				// net/http refuses (HTTP/2: drops) a field that is not legal on the wire
+				w.problems = append(w.problems, "invalid-header-field:"+k)
+			}
+		}
+	}
 	if cl := w.sent.Get("Content-Length"); cl != "" {
 		var v int64
 		if _, err := fmt.Sscanf(cl, "%d", &v); err == nil && v >= 0 && fmt.Sprint(v) == cl {
@@ -220,6 +230,15 @@ func (w *recWriter) finish() (trailers http.Header) {
 			trailers[k] = append(trailers[k], vs...)
 		}
 	}
+	defer func() {
+		for k, vs := range trailers {
+			for _, v := range vs {
+				if !httpguts.ValidHeaderFieldValue(v) {
+					w.problems = append(w.problems, "invalid-trailer-field:"+k)
+				}
+			}
+		}
+	}()
 	for k, vs := range w.hdr {
 		if rest, ok := strings.CutPrefix(k, http.TrailerPrefix); ok {
 			rest = http.CanonicalHeaderKey(rest)
